@@ -24,7 +24,7 @@ ANCHORS = ["Scenario.assign_obstacles_to_lanelets", "Scenario._add_static_obstac
            "Scenario._remove_dynamic_obstacle_from_lanelets", "Scenario.remove_obstacle",
            "Lanelet.add_dynamic_obstacle_to_lanelet", "Lanelet.add_static_obstacle_to_lanelet",
            "DynamicObstacleFactory.find_obstacle_shape_lanelets", "LaneletNetwork.find_lanelet_by_shape"]
-REQUIRED = ["scenario-without-lanelets", "file-with-separate-predicted-footprint", "prediction-records-the-initial-step", "predicted-footprint-differs-from-obstacle-shape", "op.add", "op.assign-all", "op.assign-ids", "op.assign-times", "op.assign-center-only", "op.remove",
+REQUIRED = ["re-add-after-a-lanelet-of-the-obstacle-was-removed", "scenario-without-lanelets", "file-with-separate-predicted-footprint", "prediction-records-the-initial-step", "predicted-footprint-differs-from-obstacle-shape", "op.add", "op.assign-all", "op.assign-ids", "op.assign-times", "op.assign-center-only", "op.remove",
             "op.remove-list", "op.re-add", "route.xml", "route.protobuf", "shape.Rectangle", "shape.Circle",
             "shape.Polygon", "shape.ShapeGroup", "obstacle.static", "obstacle.dynamic-trajectory", "obstacle.dynamic-none",
             "straddling(centre-lanelets<shape-lanelets)", "inv-g-checked", "inv-r-checked", "op.move",
@@ -580,3 +580,45 @@ def run(ctx):
             continue
         assigned = {(o.obstacle_id, t, "shape") for o in obs for t in horizon(o)}
         check(sc, assigned, set(), wit, "assign-without-lanelets")
+
+    # ----------------------------------------------------------------- an obstacle comes back after a lanelet it stood on is gone
+    # assigned, taken out, one of its lanelets removed from the scenario, added again: adding does not fail (the records of the
+    # obstacle name a lanelet that no longer exists), and after a new assignment everything agrees again
+    for i, rng in ctx.cases("re-add-after-lanelet-removal", ctx.pick(12, 300)):
+        lanelets, _ = lattice.gen_lanelets(rng, nmax=5)
+        if len(lanelets) < 2:
+            continue
+        sc = Scenario(0.1)
+        sc.add_objects([copy.deepcopy(l) for l in lanelets])
+        kind = ("static", "dynamic-trajectory")[i % 2]
+        ob, _, sk = gen_obstacle(rng, 501, lanelets, kind=kind, shape_kind="Rectangle")
+        sc.add_objects(ob)
+        wit = {"route": "re-add-after-lanelet-removal", "kind": kind}
+        try:
+            sc.assign_obstacles_to_lanelets()
+            on = set(ob.initial_shape_lanelet_ids or ())
+            if isinstance(ob, DynamicObstacle) and ob.prediction is not None and ob.prediction.shape_lanelet_assignment:
+                on |= set().union(*ob.prediction.shape_lanelet_assignment.values())
+            if not on:
+                ctx.counter("re-add.obstacle-on-no-lanelet")
+                continue
+            sc.remove_obstacle(ob)
+            victim = sorted(on)[0]
+            sc.remove_lanelet(sc.lanelet_network.find_lanelet_by_id(victim))
+            ctx.feature("re-add-after-a-lanelet-of-the-obstacle-was-removed")
+            ctx.evaluation()
+            ctx.fingerprint(["re-add", i])
+            try:
+                sc.add_objects(ob)
+            except Exception as e:  # noqa
+                ctx.violation("C07/add/raises-%s/records-name-a-removed-lanelet" % type(e).__name__, repr(e)[:200], wit)
+                continue
+            if sc.obstacle_by_id(501) is None:
+                ctx.violation("C07/add/obstacle-not-contained-after-add", "obstacle 501", wit)
+                continue
+            sc.assign_obstacles_to_lanelets()
+            check(sc, {(501, t, "shape") for t in horizon(ob)}, set(), wit, "assign-after-re-add")
+            sc.remove_obstacle(ob)
+            check(sc, set(), set(), wit, "remove-after-re-add")
+        except Exception as e:  # noqa
+            ctx.violation("C07/re-add-history/raises-%s" % type(e).__name__, repr(e)[:200], wit)
